@@ -67,7 +67,7 @@ Fixpoint push_all (d:data) (ls:list line) : M data :=
 Definition add_missing_data (source:data) (down:data) (B:N) (cb:cbmode) : M data :=
   let start_bound := match d_last down with Some ts => Excl ts | None => Unb end in
   match rough_new source start_bound Unb with
-  | Err _ => if is_empty_file source then ret down else fail EOther
+  | Err _ => ret down          (* EmptyFile, or (the fix) StartAfterData: nothing is missing; no other error can arise for (Excl ts | Unb, Unb) *)
   | Panic => mpanic
   | OutOfFuel => mfuel
   | Ok r =>
